@@ -82,15 +82,19 @@ func writeLog(fe *FuncEnc, st *State, which string, text Term) {
 }
 
 // varargs renders (row, off, len) of a []interface{} argument.
-func varargs(fe *FuncEnc, st *State, s Term) (Term, Term, Term) {
-	e := fe.comp(st, "E_Val", arrSort(SInt, arrSort(SInt, SVal)))
+func varargs(fe *FuncEnc, st *State, s Term, v ssa.Value) (Term, Term, Term) {
+	comp := "E_Val"
+	if isVarargsSlice(v) {
+		comp = "EV_Val"
+	}
+	e := fe.comp(st, comp, arrSort(SInt, arrSort(SInt, SVal)))
 	return tSelect(e, slRef(s)), slOff(s), slLen(s)
 }
 
 // formatted renders fmt.Sprintf(format, args...): fixed small operand lists get a canonical term.
 func formatted(fe *FuncEnc, st *State, format Term, s Term, v ssa.Value) Term {
 	if n, ok := constLenVarargs(v); ok && n <= 4 {
-		row, off, _ := varargs(fe, st, s)
+		row, off, _ := varargs(fe, st, s, v)
 		args := []Term{format}
 		for k := int64(0); k < n; k++ {
 			args = append(args, tSelect(row, tAdd(off, tInt(k))))
@@ -100,13 +104,13 @@ func formatted(fe *FuncEnc, st *State, format Term, s Term, v ssa.Value) Term {
 	if c, ok := v.(*ssa.Const); ok && c.Value == nil {
 		return Term{app("fmt.sprintf0", format), SStr}
 	}
-	row, off, n := varargs(fe, st, s)
+	row, off, n := varargs(fe, st, s, v)
 	return Term{app("fmt.sprintf", format, row, off, n), SStr}
 }
 
 func single(fe *FuncEnc, st *State, s Term, v ssa.Value) (Term, bool) {
 	if n, ok := constLenVarargs(v); ok && n == 1 {
-		row, off, _ := varargs(fe, st, s)
+		row, off, _ := varargs(fe, st, s, v)
 		return tSelect(row, off), true
 	}
 	return Term{}, false
@@ -127,7 +131,7 @@ func init() {
 				if v, ok := single(fe, st, a[0], av[0]); ok {
 					text = Term{"(str.cat (fmt.v " + v.S + ") str_nl)", SStr}
 				} else {
-					row, off, n := varargs(fe, st, a[0])
+					row, off, n := varargs(fe, st, a[0], av[0])
 					text = Term{app("fmt.sprintln", row, off, n), SStr}
 				}
 				writeLog(fe, st, "Out", fe.define("outtext", text))
@@ -139,7 +143,7 @@ func init() {
 				if v, ok := single(fe, st, a[0], av[0]); ok {
 					text = Term{"(fmt.v " + v.S + ")", SStr}
 				} else {
-					row, off, n := varargs(fe, st, a[0])
+					row, off, n := varargs(fe, st, a[0], av[0])
 					text = Term{app("fmt.sprint", row, off, n), SStr}
 				}
 				writeLog(fe, st, "Out", fe.define("outtext", text))
@@ -178,7 +182,7 @@ func init() {
 			}},
 		"fmt.Sprint": {note: "fmt.Sprint is uninterpreted",
 			fn: func(fe *FuncEnc, f *Frame, a []Term, av []ssa.Value, st *State, p Term, pos token.Pos) []Term {
-				row, off, n := varargs(fe, st, a[0])
+				row, off, n := varargs(fe, st, a[0], av[0])
 				return []Term{Term{app("fmt.sprint", row, off, n), SStr}}
 			}},
 		"fmt.Errorf": {note: "fmt.Errorf returns a non-nil error",
